@@ -183,6 +183,21 @@ def run_case(kind, p):
     pol = utils.make_polar(want) if len(want) else np.zeros((0, 2))
     if len(want) and np.abs(utils.make_cartesian(pol) - want).max() > 1e-9 * max(1.0, np.abs(want).max()):
         msgs.append("make_cartesian(make_polar(v)) != v")
+    if len(want) >= 2:
+        # the same vectors as a map with two leading axes (vector fields over a scan): converted vector by vector
+        for lead in {(len(want), 1), (1, len(want)), (2, len(want) // 2), (len(want) // 2, 2)}:
+            n_ = lead[0] * lead[1]
+            vmap = want[:n_].reshape(lead + (2,))
+            pmap = utils.make_polar(vmap)
+            ref = pol[:n_].reshape(lead + (2,))
+            if pmap.shape != vmap.shape or np.abs(pmap - ref).max() > 1e-9 * max(1.0, np.abs(ref).max()):
+                msgs.append(f"make_polar of a {vmap.shape} map of vectors differs from the conversion vector by vector "
+                            f"(result shape {pmap.shape})")
+                break
+            cmap_ = utils.make_cartesian(ref)
+            if cmap_.shape != vmap.shape or np.abs(cmap_ - vmap).max() > 1e-9 * max(1.0, np.abs(vmap).max()):
+                msgs.append(f"make_cartesian of a {vmap.shape} map of polar vectors differs from the conversion vector by vector")
+                break
     return msgs[:6]
 
 
